@@ -8,7 +8,8 @@ PROPERTY = "C07"
 RULE = "Hypothesis draws a configuration (16 runnable shipped files, 3 of 4 draws with generated parameter edits: N up to 6, box, beta, chain/sampling times, grid, cap, scheduler, speed, direction), a seed and an event budget (300-1500 quick); the real mediator loop runs under the monitor. Oracle per commit: event time >= previous; every unit's trajectory is continuous at the event time (position advanced from its own time stamp, modulo the box, 1e-9 L); resting units bit-identical; after the start-of-run event one velocity, configured speed, one point mass or all point masses of one object; 0<=x<L; identities/weights/charges unchanged. Non-trivial: history with >=1 lifting and >=1 end of chain; distinct by (config, edits, seed, budget)."
 ASSUMPTIONS = ["configurations are the runnable shipped .ini files verbatim, or shipped files with parameter edits "
                "only (particle number with number_event_handlers scaled, box, beta, chain/sampling times, grids, "
-               "occupant caps, scheduler, speed, initial direction); wiring is never generated",
+               "scheduler, speed, initial direction); generated wirings are limited to the families G4-G7 derived from "
+               "shipped files (DESIGN.md 8.5) and to a second sampling tagger copied from the shipped one",
                "observation by wrapping instance attributes of state handler, scheduler, activator, input-output "
                "handler and event handlers; private reads: Mediator._state_handler/_scheduler/_activator/"
                "_input_output_handler, Activator._taggers/_internal_states"]
